@@ -39,6 +39,12 @@ pub enum Ev {
     GatedReply(u8),
     /// Same with the SYN of the next gossip tick.
     GatedTick,
+    /// Sustained inbound traffic for this many gossip intervals: messages arrive faster than the
+    /// (slow) transport lets the node answer them, so the receive queue is never empty. Gossip
+    /// rounds must keep happening.
+    Flood(u8),
+    /// The user asks for a gossip round and, without yielding, asks for shutdown.
+    GossipThenShutdown,
     RecvFatal,
     RecvPanic,
     Shutdown,
@@ -65,6 +71,8 @@ struct Shared {
     /// When set, the next send blocks (after being recorded) until the harness opens the gate.
     gate_next_send: bool,
     gate_entered: bool,
+    /// Every send takes this long (virtual microseconds): a slow network.
+    send_delay_us: u64,
 }
 
 struct ScriptTransport {
@@ -117,6 +125,10 @@ impl Socket for ScriptSocket {
         if gated {
             // Back-pressure: the datagram leaves only when the harness opens the gate.
             self.gate.notified().await;
+        }
+        let delay = self.shared.lock().unwrap().send_delay_us;
+        if delay > 0 {
+            tokio::time::sleep(Duration::from_micros(delay)).await;
         }
         match outcome {
             None => Ok(()),
@@ -268,6 +280,49 @@ pub fn exec_srv(case: &SrvCase, tally: &mut Tally) -> Result<(), Failure> {
                             shared.lock().unwrap().gate_next_send = false;
                         }
                         tokio::time::sleep(Duration::from_millis(1)).await;
+                    }
+                }
+                Ev::Flood(k) => {
+                    if fatal.is_none() && !shut {
+                        let intervals = (*k % 6 + 6) as u32;
+                        shared.lock().unwrap().send_delay_us = 1_000;
+                        let before = shared.lock().unwrap().sent.len();
+                        let feeder_tx = tx.clone();
+                        let total = interval * intervals;
+                        let feeder = tokio::spawn(async move {
+                            let start = tokio::time::Instant::now();
+                            let mut i = 0u64;
+                            while start.elapsed() < total {
+                                i += 1;
+                                // two messages needing a reply per millisecond of sending capacity
+                                let _ = feeder_tx.send(RecvItem::Msg(peer_addr(1), message(0, i % 50)));
+                                tokio::time::sleep(Duration::from_micros(400)).await;
+                            }
+                        });
+                        tokio::time::sleep(total).await;
+                        let _ = feeder.await;
+                        shared.lock().unwrap().send_delay_us = 0;
+                        let sent: Vec<(SocketAddr, &'static str, bool)> = shared.lock().unwrap().sent[before..].to_vec();
+                        let rounds = sent.iter().filter(|(to, k, _)| *k == "SYN" && *to == seed).count();
+                        if (rounds as u32) < intervals / 3 {
+                            return vio("C19/rounds-starved-by-inbound-traffic", format!("event {step}: during {intervals} gossip intervals of sustained inbound traffic only {rounds} gossip rounds reached the seed ({} replies were sent)", sent.iter().filter(|(_, k, _)| *k == "SYN-ACK").count()));
+                        }
+                        tally.label("flood");
+                        // let the backlog drain
+                        tokio::time::sleep(interval * 2).await;
+                    }
+                }
+                Ev::GossipThenShutdown => {
+                    if !shut {
+                        shut = true;
+                        let h = handle.take().unwrap();
+                        let _ = h.gossip(peer_addr(2));
+                        let r = tokio::time::timeout(STALL, h.shutdown()).await;
+                        if r.is_err() {
+                            return vio("C19/shutdown-hangs", format!("event {step}: a shutdown requested right after a gossip request did not complete within {STALL:?} of virtual time"));
+                        }
+                        tally.label("gossip_then_shutdown");
+                        break;
                     }
                 }
                 Ev::UserGossip => {
@@ -443,6 +498,8 @@ fn ev_strategy() -> impl Strategy<Value = Ev> {
         2 => prop_oneof![Just(1u16), 50u16..5000].prop_map(Ev::UserHoldLock),
         2 => (0u8..3).prop_map(Ev::GatedReply),
         1 => Just(Ev::GatedTick),
+        1 => (0u8..6).prop_map(Ev::Flood),
+        1 => Just(Ev::GossipThenShutdown),
         1 => Just(Ev::RecvFatal),
         1 => Just(Ev::RecvPanic),
         1 => Just(Ev::Shutdown),
